@@ -448,6 +448,9 @@ def body_step(col: Collector, case):
     except LeaspyModelInputError:
         col.exclude("step-aborted:model-refused-to-evaluate-the-proposed-population-value")
         return
+    except gen.InitRejected as e:
+        col.exclude(str(e))
+        return
     except (RuntimeError, ValueError, TypeError, IndexError, KeyError) as e:
         col.fail("sampler-step", "unexpected-exception:" + exc_bucket(e), case, observed=repr(e), expected="step succeeds")
         col.case(classes=classes)
